@@ -73,7 +73,7 @@ def gen_request(rng, last=False):
 	form = rng.choice(['origin', 'origin', 'origin', 'absolute', 'asterisk' if not has_body else 'origin', 'authority' if not has_body else 'origin'])
 	if form == 'origin':
 		path = b''.join(b'/' + rng.choice([b'a', b'b', b'index.html', b'%7Euser', b'x%20y', b'caf%C3%A9', b';p', b'a=b', b'%2e%2ea']) for _ in range(rng.randrange(0, 4))) or b'/'
-		if rng.random() < 0.2:
+		if rng.random() < 0.2 and path != b'/':
 			path += b'/'
 		q = rng.choice([b'', b'', b'?a=1', b'?a=1&b=2', b'?q=x%20y', b'?k'])
 		r.target = path + q
@@ -91,8 +91,9 @@ def gen_request(rng, last=False):
 		fields.append((b'Host', host))
 	for _ in range(rng.randrange(0, 5)):
 		fields.append((rng.choice(NAMES), rng.choice(VALUES)))
-	if rng.random() < 0.3 and fields:
-		n = rng.choice(fields)[0]
+	others = [f for f in fields if f[0] != b'Host']
+	if rng.random() < 0.3 and others:
+		n = rng.choice(others)[0]
 		fields.append((n, rng.choice(VALUES)))          # a repeated field
 	rng.shuffle(fields)
 	r.body = gen_body(rng) if has_body else b''
@@ -136,7 +137,7 @@ def gen_response(rng):
 	has_body = r.status not in (204, 304) and rng.random() < 0.6
 	fields = []
 	for _ in range(rng.randrange(0, 5)):
-		fields.append((rng.choice([b'Server', b'Date', b'ETag', b'X-A', b'Set-Cookie', b'Vary', b'content-type', b'Cache-Control']), rng.choice(VALUES + [b'Sun, 06 Nov 1994 08:49:37 GMT', b'a=b; Path=/'])))
+		fields.append((rng.choice([b'Server', b'Date', b'ETag', b'X-A', b'Set-Cookie', b'Vary', b'x-content', b'Cache-Control']), rng.choice(VALUES + [b'Sun, 06 Nov 1994 08:49:37 GMT', b'a=b; Path=/'])))
 	r.body = gen_body(rng) if has_body else b''
 	wire_body = r.body
 	if has_body and r.version == (1, 1) and rng.random() < 0.5:
@@ -163,7 +164,9 @@ def gen_pipeline(rng, side, maxn=4):
 
 
 TOKENS = [b'\r', b'\n', b'\r\n', b' ', b'\t', b':', b';', b',', b'=', b'%', b'%ff', b'%c0%ae', b'%2e', b'..', b'/', b'//', b'?', b'#', b'@', b'\x00', b'\xff', b'\x80', b'=?', b'=?utf-8?b?aA==?=', b'"', b'\\',
-	b'chunked', b'gzip', b'deflate', b'identity', b'Content-Length', b'Transfer-Encoding', b'Host', b'Trailer', b'Content-Encoding', b'HTTP/1.1', b'HTTP/1.0', b'HTTP/2.0', b'0', b'-1', b'+5', b'1_0', b'ffffffff', b'9' * 30, b'\r\n\r\n', b'0\r\n\r\n', b'[::1]', b'*', b'CONNECT', b'h2c', b'Upgrade', b'HTTP2-Settings']
+	b'chunked', b'gzip', b'deflate', b'identity', b'Content-Length', b'Transfer-Encoding', b'Host', b'Trailer', b'Content-Encoding', b'HTTP/1.1', b'HTTP/1.0', b'HTTP/2.0', b'0', b'-1', b'+5', b'1_0', b'ffffffff', b'9' * 30, b'\r\n\r\n', b'0\r\n\r\n', b'[::1]', b'*', b'CONNECT', b'h2c', b'Upgrade', b'HTTP2-Settings',
+	b'=?uu?q?abc?=', b'=?hex?q?ab?=', b'=?base64?b?aA==?=', b'=?zlib?q?x?=', b'=?rot13?q?x?=', b'=?utf-7?q?+AGE-?=', b'=?a\x00b?q?x?=', b'=?idna?q?x?=', b'=?unicode_escape?q?\\x?=', b'=?undefined?q?x?=', b'=?punycode?b?gA==?=',
+	b"title*=a\x00b'en'x", b"title*=uu''x", b"title*=hex''zz", b"title*=utf-16''%ff", b"title*=undefined''x", b"; x*=idna''%ff", b'Content-Type: text/plain; charset*=', b'X: =?']
 
 
 def mutate(rng, data):
